@@ -122,6 +122,25 @@ def _iv(e):
 _MISSING = object()
 
 
+def _has_tag(v, tags) -> bool:
+    if isinstance(v, list):
+        return any(_has_tag(x, tags) for x in v)
+    if isinstance(v, dict):
+        if v.get("$") in tags:
+            return True
+        return any(_has_tag(x, tags) for x in v.values())
+    return False
+
+
+def same_multiset(a, b) -> bool:
+    """Each mode gets its own copy of the input; the iteration order of a *set* input is address dependent (hash(nan)),
+    so values derived from iterating it (tuple(data)) are compared as multisets."""
+    try:
+        return sorted(map(repr, map(tspec.canon, a))) == sorted(map(repr, map(tspec.canon, b)))
+    except TypeError:
+        return False
+
+
 def same_value(a, b) -> bool:
     return a is b or tspec.canon_eq(a, b)
 
@@ -150,6 +169,13 @@ def check_case(ctx: runner.Ctx, case):  # noqa: C901, PLR0912
     if any(o[0] == "skip" for o in outs):
         ctx.count("recursion_error_skipped")
         return
+    spec_in = case.get("datum", case.get("v"))
+    if tspec.contains(t, "union") and _has_tag(spec_in, ("gen",)):
+        # a one-shot iterator offered to a union is consumed by the cases that try it; how much each debug mode's
+        # variant consumes before failing is not specified, so the case that finally accepts may differ
+        ctx.count("unspecified_one_shot_iterator_into_union")
+        return
+    unordered_input = _has_tag(spec_in, ("set", "fset"))
     kinds = [o[0] for o in outs]
     failure = "err" in kinds
     dsize = len(repr(case.get("datum", case.get("v"))))
@@ -171,7 +197,9 @@ def check_case(ctx: runner.Ctx, case):  # noqa: C901, PLR0912
     if not failure:
         for n, o in zip(NAMES[:2], outs[:2]):
             same = tspec.dumped_eq(t, o[1], outs[2][1], e) if case["dir"] == "dump" else tspec.canon_eq(o[1], outs[2][1])
-            if not same:
+            if not same and unordered_input and case["dir"] == "load":
+                ctx.count("unspecified_order_of_set_input")   # separately built copies of a set input iterate differently
+            elif not same:
                 ctx.violation("result_differs", (case["dir"], n, t[0]), case,
                               f"{head}: {n} -> {o[1]!r} / ALL -> {outs[2][1]!r}")
         return
@@ -190,14 +218,16 @@ def check_case(ctx: runner.Ctx, case):  # noqa: C901, PLR0912
                           f"{head}: {n} raised {describe(ex)}; ALL has no node of that class: {describe(outs[2][1])}")
             continue
         iv = _iv(ex)
-        if iv is not _MISSING and not any(_iv(x) is not _MISSING and same_value(_iv(x), iv) for x in cands):
+        if iv is not _MISSING and not any(_iv(x) is not _MISSING and (same_value(_iv(x), iv) or
+                                                                      (unordered_input and same_multiset(_iv(x), iv)))
+                                          for x in cands):
             ctx.violation("error_input_value_differs", (n, type(ex).__name__, exc_site(ex)), case,
                           f"{head}: {n} raised {describe(ex)} with input_value={iv!r}; ALL nodes of that class carry "
                           f"{[_iv(x) for x in cands][:5]!r}")
 
 
 def explore(ctx: runner.Ctx):
-    ctx.given(st_case(), lambda c: check_case(ctx, c), ctx.budget(4000, 250000))
+    ctx.given(st_case(), lambda c: check_case(ctx, c), ctx.budget(8000, 300000))
 
 
 RULE = ("cases = (direction, type spec, input, strict, providers, layouts) evaluated under the three debug modes on fresh "
